@@ -221,7 +221,7 @@ async fn build_world() -> Option<World> {
 
 /// returns (told_connected, elapsed_ms, detail, echoed_ok)
 async fn real_case(w: &World, front: &Front, kind: &Kind, uniq: u32, early: bool) -> Result<(bool, u64, String, Option<bool>), String> {
-    let ip = Ipv4Addr::new(127, 77, (uniq >> 8) as u8, (uniq as u8).clamp(1, 254));
+    let ip = netkit::uniq_ip(77, uniq);
     let (host, port) = match kind {
         Kind::Accepting => (ip.to_string(), w.target_port),
         Kind::Refusing => (ip.to_string(), w.refused_port),
@@ -530,7 +530,7 @@ pub fn run(ctx: Ctx) -> Report {
         let at_target = w.bytes_at_target.lock().unwrap().clone();
         let results = results.lock().unwrap().clone();
         for (front, kind, uniq, early, r) in results {
-            let ip = Ipv4Addr::new(127, 77, (uniq >> 8) as u8, (uniq as u8).clamp(1, 254));
+            let ip = netkit::uniq_ip(77, uniq);
             let cause = format!("{:?}+{:?}{}", kind, front, if early { "+early_sender" } else { "" });
             let case = json!({"kind": "c10-real", "front": format!("{:?}", front), "target": format!("{:?}", kind), "uniq": uniq, "early": early});
             rep.case(Some(hash_str(&case.to_string())));
